@@ -304,6 +304,12 @@ func init() {
 					np = 5 + r.n(20)
 				}
 				for j := 0; j < np; j++ {
+					if j > 0 && r.coin(1, 6) {
+						// the same parent listed again (git hash-object and fsck accept it): it IS a parent line
+						// of the header block (seeded C16y de-duplicated them)
+						parents = append(parents, parents[r.n(len(parents))])
+						continue
+					}
 					parents = append(parents, randOID(r))
 				}
 				hs := []hdr{{[]byte("tree"), []byte(hex.EncodeToString(tree))}}
